@@ -9,7 +9,7 @@
 //   B <hex>          bencoded bytes, decoded with the real object_read_bencode_c
 //   U <hex>          magnet URI: the object is { "magnet-uri": <bytes> }
 // Result line:
-//   ERR:input | ERR:bencode | ERR:internal <what> | ERR:other <what> | DECODE:reject
+//   REJECT (any input_error incl. bencode_error, or a decoder reject) | ERR:internal | ERR:other <what> | HANG
 //   OK name=.. multi=.. priv=.. meta=.. cs=.. size=.. chunks=.. pieces=.. root=.. ih=.. nfiles=..
 //      files=<path>:<size>:<offset>:<r1>-<r2>:<p|n>,...  | OPEN:ok frozen=..,.. | FS:ok <d|f>:<relpath hex>,...
 #include "config.h"
@@ -17,6 +17,9 @@
 #include "common/session.h"
 
 #include <algorithm>
+#include <atomic>
+#include <chrono>
+#include <thread>
 #include <cerrno>
 #include <dirent.h>
 #include <ftw.h>
@@ -99,6 +102,9 @@ static void walk(const std::string& top, const std::string& rel, std::vector<std
   }
 }
 
+static int rmfile_cb(const char* p, const struct stat* st, int, struct FTW*) { return S_ISDIR(st->st_mode) ? 0 : ::remove(p); }
+static void remove_files(const std::string& p) { nftw(p.c_str(), rmfile_cb, 32, FTW_DEPTH | FTW_PHYS); }
+
 static void make_jail() {
   rm_rf(g_base);
   std::string p = g_base;
@@ -113,6 +119,76 @@ static std::string join(const std::vector<std::string>& v) {
   return s;
 }
 
+// One client life cycle with the download root <jail>/<leaf>[/<name>]: set_root_dir, open, full
+// hash check, start (DownloadMain::start re-opens the file list WITHOUT open_no_create:
+// directories and all files, including zero-length ones, are created; padding files are
+// skipped), stop, close; then the whole private tree is walked: the jail chain and what is under
+// <leaf> are expected, anything else (".." walking up lands inside <base>; files re-created
+// under a previous root) is an escape.
+static std::string lifecycle(torrent::Download d, const std::string& leaf, const std::string& tag, bool& all_ok,
+                             const std::string& old_leaf = "") {
+  std::string out;
+  torrent::FileList* fl = d.file_list();
+  const std::string jail = "j/j/j/j/j/" + leaf;
+  const std::string scratch = g_base + "/" + jail;
+  bool started = false;
+  std::string root = scratch;
+  if (fl->is_multi_file()) root += "/" + d.info()->name().str();
+  std::string st;
+  try {
+    fl->set_root_dir(root);
+    d.open(0);                 // Download::open: FileList::open(open_no_create)
+    if (!d.is_hash_checked()) d.hash_check(false);
+    torrent::Download dd = d;
+    if (!g_session->settle([dd]() { return dd.is_hash_checked(); }, 20000))
+      st = "err:hashcheck " + d.hash_error_message();
+    else {
+      d.start(torrent::Download::start_skip_tracker);
+      g_session->step();
+      started = true;
+      st = "ok";
+    }
+  } catch (torrent::internal_error& e) { st = std::string("err:internal ") + e.what();
+  } catch (torrent::storage_error& e) { st = std::string("err:storage");
+  } catch (torrent::input_error& e) { st = std::string("err:input");
+  } catch (std::exception& e) { st = std::string("err:other ") + e.what(); }
+  // frozen paths are taken while the download is active
+  std::vector<std::string> fr;
+  std::string pre = scratch + "/";
+  for (auto& f : *fl) {
+    if (f->is_padding()) continue;
+    const std::string& p = f->frozen_path().str();
+    if (p.compare(0, pre.size(), pre) == 0) fr.push_back(hex(p.substr(pre.size())));
+    else fr.push_back("ABS" + hex(p));
+  }
+  try {
+    if (started) { d.stop(torrent::Download::stop_skip_tracker); g_session->step(); }
+    d.close(0);
+    g_session->step();
+  } catch (torrent::internal_error& e) { st += std::string(" close-err:internal ") + e.what();
+  } catch (std::exception& e) { st += std::string(" close-err:other ") + e.what(); }
+  out += " | OPEN" + tag + ":" + st + " frozen=" + join(fr);
+  std::vector<std::pair<std::string, char>> all, raw;
+  std::string escape;
+  walk(g_base, "", all, escape);
+  for (auto& x : all) {
+    if (x.first.size() <= jail.size() && jail.compare(0, x.first.size(), x.first) == 0 &&
+        (x.first.size() == jail.size() || jail[x.first.size()] == '/')) continue;      // the chain itself
+    if (x.first.compare(0, jail.size() + 1, jail + "/") == 0) { raw.push_back({x.first.substr(jail.size() + 1), x.second}); continue; }
+    // directories left over from the previous root are tolerated, anything else there is an escape
+    const std::string old = "j/j/j/j/j/" + old_leaf;
+    if (!old_leaf.empty() && x.second == 'd' && (x.first == old || x.first.compare(0, old.size() + 1, old + "/") == 0)) continue;
+    if (escape.empty()) escape = g_base + "/" + x.first;
+  }
+  std::sort(raw.begin(), raw.end());      // byte order of the relative path
+  std::vector<std::string> inodes;
+  for (auto& x : raw) inodes.push_back(std::string(1, x.second) + ":" + hex(x.first));
+  if (escape.empty()) out += " | FS" + tag + ":ok " + join(inodes);
+  else out += " | FS" + tag + ":escape " + hex(escape);
+  all_ok = (st == "ok") && escape.empty();
+  return out;
+}
+
 // download_add takes ownership of the Object on success (DownloadWrapper::set_bencode)
 // (obj is heap allocated by the caller)
 static std::string run_object(Object* obj) {
@@ -122,8 +198,7 @@ static std::string run_object(Object* obj) {
   try {
     d = torrent::download_add(obj, 0x5eed);   // tracker key must be non-zero (TrackerUdp throws internal_error on key 0)
     added = true;
-  } catch (torrent::bencode_error&) { delete obj; return "ERR:bencode";
-  } catch (torrent::input_error&) { delete obj; return "ERR:input";
+  } catch (torrent::input_error&) { delete obj; return "REJECT";   // incl. bencode_error; class/message not compared
   } catch (torrent::internal_error& e) { delete obj; std::cerr << "internal_error: " << e.what() << "\n"; return "ERR:internal";
   } catch (std::exception& e) { delete obj; return std::string("ERR:other ") + e.what(); }
 
@@ -151,70 +226,23 @@ static std::string run_object(Object* obj) {
     }
     out += " files=" + join(fs);
 
-    // open inside the scratch root the way a client does: root/<name> for multi-file torrents
+    // life cycle inside the jail, the way a client does it: root/<name> for multi-file torrents.
+    // Phase 1 under <jail>/s; then close, the tree under s is deleted, set_root_dir to <jail>/t and
+    // the same cycle again: everything must now appear under t (the CURRENT root) and nowhere else.
     if (fl->size_chunks() > open_chunk_limit || fl->size_files() > open_file_limit) {
       out += " | OPEN:skip";
     } else {
       make_jail();
-      bool started = false;
-      std::string root = g_scratch;
-      if (fl->is_multi_file()) root += "/" + info->name().str();
-      std::string st;
-      try {
-        // the client's life cycle: open, full hash check, start (DownloadMain::start re-opens the
-        // file list WITHOUT open_no_create: directories and all files, including zero-length
-        // ones, are created; padding files are skipped), stop, close
-        fl->set_root_dir(root);
-        d.open(0);                 // Download::open: FileList::open(open_no_create)
-        d.hash_check(false);
-        torrent::Download dd = d;
-        if (!g_session->settle([dd]() { return dd.is_hash_checked(); }, 20000))
-          st = "err:hashcheck " + d.hash_error_message();
-        else {
-          d.start(torrent::Download::start_skip_tracker);
-          g_session->step();
-          started = true;
-          st = "ok";
-        }
-      } catch (torrent::internal_error& e) { st = std::string("err:internal ") + e.what();
-      } catch (torrent::storage_error& e) { st = std::string("err:storage");
-      } catch (torrent::input_error& e) { st = std::string("err:input");
-      } catch (std::exception& e) { st = std::string("err:other ") + e.what(); }
-      // frozen paths are taken while the download is active; then stop + close, and only then is
-      // the tree walked (nothing is ever deleted, so this sees everything any phase created)
-      std::vector<std::string> fr;
-      std::string pre = g_scratch + "/";
-      for (auto& f : *fl) {
-        if (f->is_padding()) continue;
-        const std::string& p = f->frozen_path().str();
-        if (p.compare(0, pre.size(), pre) == 0) fr.push_back(hex(p.substr(pre.size())));
-        else fr.push_back("ABS" + hex(p));
+      bool ok1 = false;
+      out += lifecycle(d, "s", "", ok1);
+      if (ok1) {
+        // the OLD root keeps its directory skeleton but no files: a library that still used the
+        // old frozen paths would re-create the files there, where the walk sees them
+        remove_files(g_base + "/j/j/j/j/j/s");
+        ::mkdir((g_base + "/j/j/j/j/j/t").c_str(), 0777);
+        bool ok2 = false;
+        out += lifecycle(d, "t", "2", ok2, "s");
       }
-      try {
-        if (started) { d.stop(torrent::Download::stop_skip_tracker); g_session->step(); }
-        d.close(0);
-        g_session->step();
-      } catch (torrent::internal_error& e) { st += std::string(" close-err:internal ") + e.what();
-      } catch (std::exception& e) { st += std::string(" close-err:other ") + e.what(); }
-      out += " | OPEN:" + st;
-      out += " frozen=" + join(fr);
-      // walk the whole private tree <base>: the jail chain j/j/j/j/j/s and what is under s are
-      // expected; anything else (a ".." walking up a few levels lands inside <base>) is an escape
-      std::vector<std::pair<std::string, char>> all, raw;
-      std::string escape;
-      walk(g_base, "", all, escape);
-      const std::string jail = "j/j/j/j/j/s";
-      for (auto& x : all) {
-        if (x.first.size() <= jail.size() && jail.compare(0, x.first.size(), x.first) == 0 &&
-            (x.first.size() == jail.size() || jail[x.first.size()] == '/')) continue;      // the chain itself
-        if (x.first.compare(0, jail.size() + 1, jail + "/") == 0) raw.push_back({x.first.substr(jail.size() + 1), x.second});
-        else if (escape.empty()) escape = g_base + "/" + x.first;
-      }
-      std::sort(raw.begin(), raw.end());      // byte order of the relative path
-      std::vector<std::string> inodes;
-      for (auto& x : raw) inodes.push_back(std::string(1, x.second) + ":" + hex(x.first));
-      if (escape.empty()) out += " | FS:ok " + join(inodes);
-      else out += " | FS:escape " + hex(escape);
     }
   } catch (torrent::internal_error& e) { out += std::string(" ERR:internal ") + e.what();
   } catch (std::exception& e) { out += std::string(" ERR:other ") + e.what(); }
@@ -229,7 +257,63 @@ static std::string run_object(Object* obj) {
   return out;
 }
 
-int main() {
+// ---- probes of what the property leaves open (ROBUSTNESS rule 3/4): read from the COMPILED code
+static bool probe_accepts(Object* o) {
+  try {
+    torrent::Download d = torrent::download_add(o, 0x5eed);
+    torrent::download_remove(d);
+    g_session->step();
+    return true;
+  } catch (torrent::input_error&) { delete o; return false; }
+}
+static bool probe_piece_length(int64_t pl) {
+  Object* o = new Object(Object::create_map());
+  Object& info = o->insert_key("info", Object::create_map());
+  int64_t pieces = pl >= 5 ? 1 : (pl > 0 ? (5 + pl - 1) / pl : 1);
+  info.insert_key("name", Object(std::string("probe")));
+  info.insert_key("piece length", Object(pl));
+  info.insert_key("length", Object((int64_t)5));
+  info.insert_key("pieces", Object(std::string(20 * pieces, 'x')));
+  return probe_accepts(o);
+}
+static void print_params() {
+  // smallest and largest accepted "piece length" (assumes one accepted interval containing 2^20)
+  int64_t lo = 0, hi = int64_t(1) << 20;       // lo rejected, hi accepted
+  std::string note;
+  if (!probe_piece_length(hi) || probe_piece_length(lo)) note = " note=piece-length-probe-assumption-failed";
+  while (hi - lo > 1) { int64_t mid = lo + (hi - lo) / 2; if (probe_piece_length(mid)) hi = mid; else lo = mid; }
+  int64_t pl_min = lo;                          // exclusive bound
+  int64_t a = int64_t(1) << 20, b = int64_t(1) << 40;   // a accepted, b rejected
+  if (probe_piece_length(b)) note = " note=piece-length-probe-assumption-failed";
+  while (b - a > 1) { int64_t mid = a + (b - a) / 2; if (probe_piece_length(mid)) a = mid; else b = mid; }
+  int64_t pl_max = a;                           // inclusive bound
+  Object* o = new Object(Object::create_map());
+  o->insert_key("magnet-uri", Object(std::string("magnet:?xt=urn:btih:") + std::string(32, 'B') + "&xt=urn:sha1:abc"));
+  bool foreign_ok = probe_accepts(o);
+  std::cout << "PARAMS pl_min=" << pl_min << " pl_max=" << pl_max << " hash_size=" << torrent::HashString::size_data
+            << " reject_foreign_xt=" << (foreign_ok ? 0 : 1) << note << "\n";
+}
+
+// ---- per-case watchdog (ROBUSTNESS rule 5): a case that does not finish prints HANG and the
+// process exits; ltv.run_sharded resumes with the next case
+static std::atomic<int64_t> g_case_start_ms{0};
+static int64_t now_ms() {
+  return std::chrono::duration_cast<std::chrono::milliseconds>(std::chrono::steady_clock::now().time_since_epoch()).count();
+}
+static void watchdog(int64_t limit_ms) {
+  for (;;) {
+    std::this_thread::sleep_for(std::chrono::milliseconds(200));
+    int64_t t0 = g_case_start_ms.load();
+    if (t0 != 0 && now_ms() - t0 > limit_ms) {
+      const char msg[] = "HANG\n";
+      fflush(stdout);
+      (void)!::write(1, msg, sizeof(msg) - 1);
+      _exit(3);
+    }
+  }
+}
+
+int main(int argc, char** argv) {
   std_setup();
   ltv::Session session;          // /verif/build/scratch/<pid>/ is this process's own directory
   g_session = &session;
@@ -237,8 +321,19 @@ int main() {
   g_scratch = g_base + "/j/j/j/j/j/s";
   rm_rf(g_base);
 
+  if (argc > 1 && std::string(argv[1]) == "--params") {
+    try { print_params(); } catch (std::exception& e) { std::cout << "PARAMS error " << e.what() << "\n"; }
+    rm_rf(g_base);
+    return 0;
+  }
+  {
+    const char* lim = getenv("C08_CASE_TIMEOUT_MS");
+    std::thread(watchdog, lim ? atoll(lim) : 30000).detach();
+  }
+
   std::string line;
   while (std::getline(std::cin, line)) {
+    g_case_start_ms = now_ms();
     auto t = split_ws(line);
     std::string res;
     try {
@@ -256,7 +351,7 @@ int main() {
           torrent::object_read_bencode_c(buf.p, buf.p + buf.n, o);
         } catch (torrent::bencode_error&) { ok = false; }
         if (ok) res = run_object(o);
-        else { delete o; res = "DECODE:reject"; }
+        else { delete o; res = "REJECT"; }
       } else if (t.size() == 2 && t[0] == "U") {
         Object* o = new Object(Object::create_map());
         o->insert_key("magnet-uri", Object(unhex(t[1])));
@@ -267,6 +362,7 @@ int main() {
     } catch (torrent::internal_error& e) { res = std::string("ERR:internal ") + e.what();
     } catch (std::exception& e) { res = std::string("ERR:other ") + e.what(); }
     std::cout << res << "\n";
+    g_case_start_ms = 0;
   }
   rm_rf(g_base);
   std::cout.flush();
